@@ -24,6 +24,8 @@ RULE = ("registration histories on a private UnitDatabase(): bounded-exhaustive 
         "rejected-argument class) to depth 3 (quick) / 4 (thorough, last call from an 8-call sub-alphabet), random "
         "histories to depth 40 with arbitrary argument combinations; after the history the complete registry and ~45 "
         "getter/construction queries (incl. GetDefaultValue/GetDefaultUnit/FindUnitCase/FindSimilarUnitMatches/CheckValueForCategory, GetBaseUnit of an unknown type) are compared; "
+        "AddCategory limits with a ZERO-valued bound (0.0, int 0) on either side of contradictory and consistent limits, defaults on / just outside such a "
+        "bound with and without exclusivity flags, through from_category and override (15-call sub-alphabet to depth 2 / 3, and in the random calls); "
         "AddCategory with EXPLICIT None for is_min_exclusive/is_max_exclusive/caption with and without from_category (8-call sub-alphabet to depth 3 / 4, and in the random calls); plus sessions (depth 2 exhaustive with a category / 3 thorough, and random) "
         "in which Scalar(1.0, u, c) is attempted for the named categories x units before every call and after the last "
         "(a unit that failed before its registration must work after it); plus families of 2-3 private databases alive at the same time that share quantity-type and category names but hold "
@@ -36,6 +38,7 @@ ASSUMPTIONS = ["conversion formulas of registered units are strings (callables a
                "names are ASCII (str.title of the default caption is modelled on ASCII bytes)",
                "the empty string is not used as a quantity type (None and '' coincide in the model's symbol code 0)",
                "float results within K*eps*M of the exact model (checked, not proved)",
+               "-0.0 is never used as a limit or default value (the exact model does not distinguish it from 0.0)",
                "dead lines of unit_database.py no input reaches: 796 (`unit = name`: the class check above raises TypeError "
                "for None first), 810 (second duplicate check: unreachable from a well-formed registry, see the model's addInfo "
                "and rejected_step_id), 850 (`return None` after CheckQuantityType, which raises), 628 (None as a category key: "
@@ -179,12 +182,28 @@ def _rnd_op(rng):
 
 def _rnd_op_n(rng):
     """`_rnd_op` (kept as it is: C19 draws from it too), plus EXPLICIT None for the exclusivity flags / the caption of
-    an AddCategory (copied from the source category when from_category is given)"""
+    an AddCategory (copied from the source category when from_category is given), plus limits with a ZERO-valued bound
+    (0.0, the int 0: falsy values that are limits all the same; never -0.0, which the exact model cannot tell from 0.0) on either side of consistent and of contradictory
+    limits, and default values on / just outside such bounds"""
     op = _rnd_op(rng)
     if op["k"] == "cat":
+        kw = op["kw"]
         for key in ("is_min_exclusive", "is_max_exclusive", "caption"):
             if rng.random() < 0.12:
-                op["kw"][key] = None
+                kw[key] = None
+        if rng.random() < 0.15:
+            zero = rng.choice([0.0, 0.0, 0])
+            lo, hi = rng.choice([(zero, -5.0), (5.0, zero), (zero, -0.5), (1.0, zero), (zero, zero), (zero, 10.0), (-10.0, zero),
+                                 (zero, None), (None, zero)])
+            for key, v in (("min_value", lo), ("max_value", hi)):
+                kw.pop(key, None)
+                if v is not None:
+                    kw[key] = v
+            r = rng.random()
+            if r < 0.45:
+                kw.pop("default_value", None)          # derived from the limits
+            elif r < 0.9:
+                kw["default_value"] = rng.choice([0.0, 0, 0.5, -0.5, 1e-9, -1e-9, 10.0, -10.0, 12.0])
     return op
 
 
@@ -282,6 +301,34 @@ NONE_ALPHABET = [
 ]
 
 
+# limits with a ZERO-valued bound (a falsy number that is a limit all the same): contradictory limits with the zero on
+# either side, consistent ones, defaults on / just outside a zero-valued bound with and without the exclusivity flags,
+# inherited through from_category, replacing a good category (override)
+LIMIT_ALPHABET = [
+    _cat("depth", "length", min_value=0.0, max_value=-5.0),
+    _cat("depth", "length", min_value=5.0, max_value=0.0),
+    _cat("depth", "length", min_value=0, max_value=-5, override=True),
+    _cat("depth", "length", min_value=0.0, max_value=-1.0, is_max_exclusive=False, override=True),
+    _cat("depth", "length", min_value=0.0, max_value=0.0, override=True),
+    _cat("depth", "length", min_value=0.0, max_value=10.0, default_value=5.0),
+    _cat("depth", "length", min_value=0.0, max_value=10.0, default_value=-0.5, override=True),
+    _cat("depth", "length", min_value=-10.0, max_value=0.0, default_value=1e-9, override=True),
+    _cat("depth", "length", min_value=0.0, is_min_exclusive=True, default_value=0.0, override=True),
+    _cat("depth", "length", max_value=0.0, is_max_exclusive=True, default_value=0.0, override=True),
+    _cat("depth", "length", min_value=0.0, max_value=0.0, is_min_exclusive=True, default_value=0.0, override=True),
+    _cat("depth", "length", max_value=0.0, override=True),
+    _cat("c per d", from_category="depth", min_value=0.0, max_value=-1.0),
+    _cat("c per d", from_category="depth", max_value=0.0, override=True),
+    _cat("c per d", from_category="depth", min_value=0.0, default_value=0.0, override=True),
+]
+
+
+def _limit_cases(depth):
+    for d in range(1, depth + 1):
+        for idx in itertools.product(range(len(LIMIT_ALPHABET)), repeat=d):
+            yield _history([_base("length", "m")] + [LIMIT_ALPHABET[i] for i in idx], tag="zero-limits")
+
+
 def _none_cases(depth):
     """AddCategory with EXPLICIT None for is_min_exclusive / is_max_exclusive / caption, with and without from_category"""
     for d in range(1, depth + 1):
@@ -292,6 +339,7 @@ def _none_cases(depth):
 def cases(ctx):
     yield dict(op="shipped", _t=dict(tag="shipped"))
     yield from _none_cases(3 if ctx.tier == "quick" else 4)
+    yield from _limit_cases(2 if ctx.tier == "quick" else 3)
     yield from _family_cases(ctx, ctx.tier[0], 2 if ctx.tier == "quick" else 3, 150 if ctx.tier == "quick" else 2000)
     yield from _probed_cases(ctx, ctx.tier[0], 2 if ctx.tier == "quick" else 3, 150 if ctx.tier == "quick" else 1500)
     if ctx.tier == "quick":
@@ -574,6 +622,7 @@ def table_candidates(ctx):
 def search(ctx):
     yield dict(op="shipped", _t=dict(tag="shipped"))
     yield from _none_cases(3)
+    yield from _limit_cases(2)
     yield from _family_cases(ctx, "s", 2, 300)
     yield from _probed_cases(ctx, "s", 2, 300)
     yield from _exhaustive(3)
